@@ -106,8 +106,8 @@ CHECKS = {
     "C12": (
         "cluster+persist",
         "exploration",
-        "Generated leader histories with a follower joining at a generated position; at a quiescent point the leader is lost, the follower is stopped gracefully and a new server is started on the follower's data directory - all three configured exactly as the server binary configures itself for the orchestrator's command line (Config::new(Some(Args{..})) with a clean environment). The promoted node's user keys (value, version) must equal the follower's keys with the grave goods buried and last wills set of all clients that were connected to the old leader. 400 promotions quick, 13 k thorough.",
-        "In process (no orchestrator process): the follower's graceful stop stands for the orchestrator's SIGTERM. Registrations whose result depends on the order of clients are dropped. D12a (pre-join registrations never reach the follower) is a listed known finding.",
+        "Generated leader histories with a follower joining at a generated position; at a quiescent point the leader is lost, the follower is stopped gracefully and a new server is started on the follower's data directory - all three configured exactly as the server binary configures itself for the command lines the real orchestrator binary uses in leader and follower mode (captured once per run through a stub executable, parsed with the server's own clap definition, given to Config::new with a clean environment). The promoted node's user keys (value, version) must equal the follower's keys with the grave goods buried and last wills set of all clients that were connected to the old leader. 400 promotions quick, 13 k thorough.",
+        "Servers run in process; the orchestrator process is only used to obtain the role command lines (sync port, leader address, instance name, data directory and endpoints are substituted); the follower's graceful stop stands for the orchestrator's SIGTERM. Registrations whose result depends on the order of clients are dropped. D12a (pre-join registrations never reach the follower) is a listed known finding.",
         "property-based testing: proptest histories + fault (leader loss) with a reference-model oracle over the follower's state at the loss",
         "DESIGN.md §5 C12",
     ),
